@@ -245,6 +245,18 @@ theorem dwo_base_rules (c : Cfg) (dwo : Bool) (secs : Sections) :
     simp [defaultListsBase, this]
   · intro h; simp only [defaultListsBase, h, and_self, if_true]; cases c.format <;> rfl
 
+/-- **base rules, any root DIE**: a unit's `addr_base` / `rnglists_base` / `loclists_base` is the
+value of the last `DW_AT_addr_base`|`DW_AT_GNU_addr_base` / `DW_AT_rnglists_base`|`DW_AT_GNU_ranges_base`
+/ `DW_AT_loclists_base` attribute given as a section offset, and otherwise 0 resp. the default of
+`dwo_base_rules` -/
+theorem unit_bases_rules (c : Cfg) (dwo : Bool) (secs : Sections) (root : Attrs) (u : UnitCtx)
+    (h : unitBases c dwo secs root = .ok u) :
+    u.addrBase = (lastSec .addrBase root).getD 0 ∧
+    u.rnglistsBase = (lastSec .rnglistsBase root).getD (defaultListsBase c dwo) ∧
+    u.loclistsBase = (lastSec .loclistsBase root).getD (defaultListsBase c dwo) ∧
+    u.cfg = c ∧ u.dwo = dwo :=
+  unitBases_bases c dwo secs root u h
+
 /-- **Recorded finding C08-1** (`known_findings.d/C08.json`): the single `low_pc .. high_pc` range
 of `die_ranges` / `unit_ranges` is NOT filtered, so the third sentence of C08 fails for it: here a
 DIE whose code was discarded by the linker (`DW_AT_low_pc = -1`, size 0) yields the empty range
